@@ -149,7 +149,7 @@ var specC14 = &lifeSpec{
 		dec := s.Labels["migrate+"] + s.Labels["terminate+"] + s.Labels["expired"]
 		return o.MaxHolding >= 2 && dec > 0
 	},
-	Weights: map[string]int{"complete": 4, "advance": 3, "storeNew": 2},
+	Weights: map[string]int{"complete": 4, "advance": 3, "storeNew": 2, "debtCombo": 1, "bankDrain": 1, "vstorage": 1},
 }
 
 func init() { specC14.register() }
@@ -280,6 +280,23 @@ func TestC04(t *testing.T) { runRapid(t, "TestC04", specC04.property()) }
 
 // ---- C08 ----
 
+// genAimedRewardParams aims the below-baseline limit pledged*APY/(HalvingPeriod/2) at the block reward of the
+// current halving age (pledged = what the standard setup pledges), so that the two caps of the mint interact.
+func genAimedRewardParams(t *rapid.T, denom string, pledged int64, age uint) *nodetypes.Params {
+	reward := rapid.SampledFrom([]int64{1000, 64_000, 1_000_000}).Draw(t, "blockReward")
+	halving := rapid.SampledFrom([]int64{12, 100, 5000}).Draw(t, "halving")
+	cur := reward >> age
+	target := rapid.SampledFrom([]int64{cur - 1, cur, cur + 1, (cur + reward) / 2, reward - 1, reward, reward + 1, cur / 2}).Draw(t, "limitTarget")
+	if target < 1 {
+		target = 1
+	}
+	// APY = target * (halving/2) / pledged, with a little headroom so that truncation lands on target
+	apy := sdk.NewDec(target).MulInt64(halving / 2).QuoInt64(pledged).Add(sdk.NewDecWithPrec(1, 12))
+	p := nodetypes.NewParams(sdk.NewInt64Coin(denom, reward), sdk.NewInt64Coin(denom, 1_000_000_000_000_000), apy, halving,
+		rapid.SampledFrom([]int64{11, 50, 2000}).Draw(t, "adjust"), "", 1, 10000, sdk.NewDecWithPrec(10, 2), 10_000_000, 1_000_000)
+	return &p
+}
+
 func genNodeParams(t *rapid.T, denom string) *nodetypes.Params {
 	reward := rapid.SampledFrom([]int64{0, 1, 7, 1000, 1_000_000, 6_250_000}).Draw(t, "blockReward")
 	baseline := rapid.SampledFrom([]int64{0, 1, 1000, 4999, 5001, 20000, 1_000_000_000_000_000}).Draw(t, "baseline")
@@ -301,6 +318,20 @@ var specC08 = &lifeSpec{
 	},
 	Pre: func(t *rapid.T, s *Sim, cfg *LifeCfg, os []Oracle) {
 		a := NewAction("params", 0)
+		if rapid.Bool().Draw(t, "aimed") {
+			// halving age 0-3 through an installed reward counter; 5 providers x 1e9 bytes = 5000 coins pledged
+			age := uint(rapid.IntRange(0, 3).Draw(t, "age"))
+			a.Params = genAimedRewardParams(t, s.W.Cfg.Denom, 5000, age)
+			s.Do(a)
+			if age > 0 {
+				p := NewAction("set_pool", 0)
+				p.Amount = []int64{0, 200000000000000, 300000000000000, 350000000000000}[age] + int64(rapid.IntRange(0, 1000).Draw(t, "into"))
+				s.Do(p)
+				v := sdk.NewInt(p.Amount)
+				os[0].(*C08Oracle).baseReward = &v
+			}
+			return
+		}
 		a.Params = genNodeParams(t, s.W.Cfg.Denom)
 		s.Do(a)
 		if rapid.IntRange(0, 3).Draw(t, "preminted") == 0 {
